@@ -14,6 +14,13 @@ CHECKS = {
          "checks the per-record plaintext length against the limit in force (user recordSize, RFC 8449 negotiated limit, TLS 1.3 padding).",
          "in-memory transport; reference ciphers/KDFs validated against OpenSSL CLI and RFC vectors; two dead suites (0x40, 0x6A) cannot be negotiated at all and are outside the domain",
          "DESIGN.md §4 C01"),
+ "C09": ("exploration",
+         "property-based differential testing (Hypothesis) against independent reference implementations validated with the openssl CLI",
+         "Every shipped pure-Python primitive and derivation function (AES-CBC/CTR, GCM, CCM/CCM-8, ChaCha20, Poly1305, ChaCha20-Poly1305, 3DES, RC4, HMAC, SSLv3/TLS1.0/TLS1.2 PRFs, "
+         "HKDF-Expand-Label/Derive-Secret, calc_key/calcMasterSecret/calcFinished, key-block slicing, TLS 1.3 traffic keys and key update) is compared with references written from the "
+         "standards over generated keys/nonces/AAD/labels/lengths/chunkings; AEAD open() is attacked with exhaustive single-bit flips on a short message plus drawn mutations.",
+         "references (vlib/refs) are validated at every run against FIPS/RFC vectors and the openssl CLI (selftest; failure = exit 2); functional equality only",
+         "DESIGN.md §4 C09"),
  "C12": ("exploration",
          "property-based testing (Hypothesis + enumerated grids) against a direct executable specification",
          "ct_check_cbc_mac_and_pad is compared with a direct RFC specification of MtE CBC bodies on enumerated grids "
